@@ -1,10 +1,10 @@
 /-
 Concrete definitions and histories for `Props/C02Sem.lean`:
-  * `sSpec` / `sPlain` / `sStale`: the witness of `outcome_schedule_independent_full_fails` - task t0
-    (fails; on-error → t1), pause / resume while t0 is still IDLE; the re-queued
-    `start_task(first_run=False)` is delivered after t0 has failed AND the workflow has finished:
-    t0 runs again inside the finished workflow and its row is rewritten (replayed on the real
-    engine: corpus/C02/stale_restart_after_finish.json);
+  * `sSpec` / `sPlain` / `sStale`: the former counter-witness of schedule independence, now a
+    regression - task t0 (fails; on-error → t1), pause / resume while t0 is still IDLE; the re-queued
+    `start_task(first_run=False)` is delivered after t0 has failed AND the workflow has finished.
+    Before the fix of `_run_existing` (repo_patches/20) t0 ran again inside the finished workflow and
+    its row was rewritten; now the request is ignored (corpus/C02/stale_restart_after_finish.json);
   * `fjSpec` / `fjFifo` / `fjPaused`: a fork / join definition with a failing branch and an on-error
     route, one history without operator commands and one with a pause / resume round and another
     delivery order (non-vacuity of the theorems).
@@ -12,22 +12,6 @@ Concrete definitions and histories for `Props/C02Sem.lean`:
 import Mistral.Lemmas.SemRun
 namespace Mistral.Sem.Wit
 open Mistral Mistral.Join Mistral.Engine Mistral.Engine.Live Mistral.Sem
-
-/-- `PausedClean` on every prefix, executable -/
-def cleanFromB (sp : Spec) : World → List Event → Bool
-  | w, [] => decide (PausedClean w)
-  | w, e :: es => decide (PausedClean w) && cleanFromB sp (step sp w e) es
-
-theorem cleanFromB_sound (sp : Spec) (evs : List Event) :
-    ∀ (w : World), cleanFromB sp w evs = true → ∀ n, PausedClean ((evs.take n).foldl (step sp) w) := by
-  induction evs with
-  | nil => intro w h n; simpa [cleanFromB] using h
-  | cons e es ih =>
-    intro w h n
-    have h' : PausedClean w ∧ cleanFromB sp (step sp w e) es = true := by simpa [cleanFromB] using h
-    cases n with
-    | zero => simpa using h'.1
-    | succ n => simpa using ih (step sp w e) h'.2 n
 
 /-! ### the stale re-start -/
 
@@ -56,7 +40,8 @@ def sPlain : List Event :=
    .deliver (.rpcResult ("t1", 0) true),
    .deliver .postCheck]
 
-/-- pause / resume while t0 is IDLE; the re-queued start request arrives after the workflow finished -/
+/-- pause / resume while t0 is IDLE; the re-queued start request arrives after the workflow finished
+    (and is ignored) -/
 def sStale : List Event :=
   [.deliver (.postStartTask ("t0", 0) true),
    .pause,
@@ -72,11 +57,7 @@ def sStale : List Event :=
    .execute ("t1", 0) true,
    .deliver (.rpcResult ("t1", 0) true),
    .deliver .postCheck,
-   .deliver (.rpcStartTask ("t0", 0) false),
-   .deliver (.postRunAction ("t0", 0)),
-   .execute ("t0", 0) false,
-   .deliver (.rpcResult ("t0", 0) false),
-   .deliver .postCheck]
+   .deliver (.rpcStartTask ("t0", 0) false)]
 
 theorem s_names : namesUnique sSpec := by unfold namesUnique; decide
 
